@@ -153,6 +153,16 @@ func runC05(c *Ctx) {
 		seen := s.SeenBefore(cp)
 		R.Ob(c.siteKey(cp, "LineLimit=0 before chunk copy"), c.P.InstrPos(cp), seen["st:lineLimitReader.LineLimit=0"], "payload is copied with the command line limit still armed")
 	}
+	// ... and stays lifted until the last octet of the chunk has been read: the discard of a refused chunk's remainder
+	// reads payload too (with the limit back, a remainder without line breaks is a "too long line" and the connection is closed)
+	c.obNever("no chunk octet read after the limit is back", f, func(in ssa.Instruction) bool {
+		fld, _, v := storedField(in)
+		if fld == nil || fld.Name() != "LineLimit" {
+			return false
+		}
+		k, isK := constInt(v)
+		return !(isK && k == 0)
+	}, []string{"copy-to:Conn.bdatPipe", "drain:io.Reader"}, []string{"st:lineLimitReader.LineLimit=0"}, nil)
 
 	ruleLimiterBypass(c)
 
@@ -225,6 +235,11 @@ func ruleBdatAccounting(c *Ctx, bi *bdatInfo) {
 		want := "(Conn.bytesReceived + " + bi.sizeDesc + ")"
 		R.Ob(c.siteKey(site, "bytesReceived += size"), c.P.InstrPos(site), describe(v) == want, "bytesReceived becomes "+describe(v)+", want "+want)
 		c.obFactMatch("bytesReceived only after successful copy", site, `^io\.Copy\(Conn\.bdatPipe,.*\)#1 == nil$`, "accounting on a path where the chunk copy did not succeed")
+	}
+	// ... and before the transaction is reset, not after: reset() zeroes the total, so a chunk counted after the reset
+	// that ends a message is charged to the next message
+	if f := c.A.Func("(*Conn).handleBdat"); f != nil {
+		c.obNever("chunk counted before the reset, not after", f, c.direct(lReset), []string{"st:Conn.bytesReceived"}, nil, nil)
 	}
 }
 
